@@ -30,4 +30,9 @@ CHECKS = {
   "text": "eval_abs.eval_expr is run on generated expressions (random trees, 3/4-ary associative operators, lifter-only operators) in states that bind identifiers and same-address memory cells to constants, symbolic expressions over free symbols, or nothing. For 6 valuations of the free symbols the value of the result must equal the reference value of the original expression after substitution; widths must agree; bound identifiers are poisoned so an unsubstituted one is visible; with all-constant inputs and core operators the result must be an integer constant.",
   "note": "Trusted: vlib/irsem.py. Fresh objects/machine per case and the shared default eval_cache cleared (hidden state is C12's subject). Reads that partially overlap a bound cell, mutually overlapping cells and valuations under which an unbound read aliases a bound cell are excluded and counted (C07's subject / outside the machine's stated model). Lifter-only named operators (umul32_hi, div32...) may stay symbolic on constants.",
  },
+ "C01": {
+  "technique": "structured enumeration of the opcode x ModRM x SIB x prefix space, differential against two independent reference decoders (GNU objdump, LLVM as arbiter) through a notation-level normal form",
+  "text": "About 250k (quick) / 7M (thorough) byte strings built from prefix set x opcode map (1-byte, 0F, 0F38, 0F3A, x87) x ModRM/SIB class x fill, plus complete ModRM and SIB grids and all control-transfer forms, are decoded by miasmX and by objdump; length and every operand field of miasmX's Intel rendering are compared with the reference after notation normalisation; a disagreement counts only when LLVM's decoder agrees with objdump. instr.b / instr.l consistency and re-decoding of exactly the consumed bytes are checked on every accepted string.",
+  "note": "Trusted: binutils 2.40 objdump and LLVM 14 where they agree; vlib/nf.py (synonym table, normalisation). Out of domain and counted: strings a decoder rejects, strings with a prefix that has no effect, LOCK on non-lockable forms, F2/F3 forms that later ISA extensions reassigned. Displacement/immediate values are sampled at boundary fills, not exhausted. ~105 existing decoder imprecisions are listed as open known findings keyed by (field, prefixes, opcode, mnemonic).",
+ },
 }
